@@ -202,9 +202,12 @@ def sweeps(tier, rng):
     small = DataSet(f[:6], Z[:6], label="small")
     combos = []
     tests = ["complex", "real", "imaginary", "complex-inv", "real-inv", "imaginary-inv", "cnls"]
-    kk = list(itertools.product(tests, [None, False, True], [False, True], [False, True], [0, 5], [-1, 0, 3], [True, False]))
+    kk = list(itertools.product(tests, [None, False, True], [False, True], [False, True], [0, 1, 2, 5], [-1, 0, 3], [True, False]))
     rng.shuffle(kk)
-    for t, adm, C, L, nrc, nfe, rapid in kk[: (25 if tier == "quick" else 400)]:
+    # the smallest numbers of RC elements are always tried (the edge of "fixed number" vs "automatic")
+    edge = [("complex", None, True, True, 1, 0, True), ("real", False, True, False, 1, 0, False), ("complex-inv", True, False, True, 1, 0, True),
+            ("complex", None, True, True, 2, 0, True), ("imaginary", False, False, False, 2, 0, False)]
+    for t, adm, C, L, nrc, nfe, rapid in edge + kk[: (25 if tier == "quick" else 400)]:
         if t == "cnls" and (nrc == 0 or nfe != 0) and tier == "quick":
             continue
         combos.append(("perform_kramers_kronig_test", pyimpspec.perform_kramers_kronig_test,
